@@ -104,6 +104,98 @@ fn run_after(first: (http::Version, Option<&str>, &str, Option<&str>), second: (
     }
 }
 
+/// Connection level: the real per-connection stack (TLS-terminating acceptor over an in-memory stream, real
+/// rustls handshake, `TlsConnectionInfoLayer`, `ValidateSNIService`). Before the server side of the handshake
+/// has run, `early` request futures are created, polled `polls` times and dropped; then the handshake
+/// completes and three requests follow. Their verdicts must be the reference's, whatever happened before.
+fn connection_level_runs() -> Result<(u64, Vec<(String, String)>), String> {
+    use crate::schedmc::tlsfix;
+    use hyperdriver::client::conn::transport::duplex::DuplexTransport;
+    use hyperdriver::client::conn::transport::TransportExt as _;
+    use hyperdriver::client::conn::Transport as _;
+    use hyperdriver::server::conn::tls::sni::ValidateSNIService;
+    use hyperdriver::server::conn::tls::TlsConnectionInfoLayer;
+    use hyperdriver::server::conn::AcceptExt as _;
+    use hyperdriver::stream::tls::TlsHandshakeStream as _;
+    use hyperdriver::IntoRequestParts as _;
+    let server_cfg = tlsfix::server_config("examplecom", &[])?;
+    let client_cfg = std::sync::Arc::new(tlsfix::client_config(&[])?);
+    let rt = tokio::runtime::Builder::new_current_thread().enable_all().build().map_err(|e| e.to_string())?;
+    let mut runs = 0u64;
+    let mut viols = vec![];
+    for early in 0..=2usize {
+        for polls in 0..=2usize {
+            if early == 0 && polls > 0 {
+                continue;
+            }
+            runs += 1;
+            let (server_cfg, client_cfg) = (server_cfg.clone(), client_cfg.clone());
+            let out: Result<Vec<(String, String)>, String> = rt.block_on(async move {
+                let seen: std::sync::Arc<std::sync::Mutex<Vec<(String, Option<TlsConnectionInfo>)>>> = Default::default();
+                let seen2 = seen.clone();
+                let app = tower::service_fn(move |req: http::Request<hyperdriver::Body>| {
+                    let host = req.headers().get(http::header::HOST).and_then(|h| h.to_str().ok()).unwrap_or("").to_string();
+                    seen2.lock().unwrap().push((host, req.extensions().get::<TlsConnectionInfo>().cloned()));
+                    async move { Ok::<_, Infallible>(http::Response::new(hyperdriver::Body::empty())) }
+                });
+                let (client, incoming) = hyperdriver::stream::duplex::pair();
+                let acceptor = hyperdriver::server::conn::Acceptor::from(incoming).with_tls(server_cfg);
+                let mut transport = DuplexTransport::new(1024, client).with_tls(client_cfg);
+                let client_side = async move {
+                    let mut stream = transport.connect("https://example.com".into_request_parts()).await.map_err(|e| format!("client connect: {e}"))?;
+                    stream.finish_handshake().await.map_err(|e| format!("client handshake: {e}"))?;
+                    Ok::<_, String>(stream)
+                };
+                let request = |host: &str| http::Request::builder().uri("/").header(http::header::HOST, host).body(hyperdriver::Body::empty()).unwrap();
+                let server_side = async move {
+                    let mut conn = acceptor.accept().await.map_err(|e| format!("accept: {e}"))?;
+                    let mut make_service = TlsConnectionInfoLayer::new().layer(tower::make::Shared::new(ValidateSNIService::new(app)));
+                    let mut svc = Service::call(&mut make_service, &conn).await.map_err(|_| "make service".to_string())?;
+                    for _ in 0..early {
+                        let mut fut = Box::pin(Service::call(&mut svc, request("example.com")));
+                        for _ in 0..polls {
+                            if futures_util::poll!(&mut fut).is_ready() {
+                                break;
+                            }
+                        }
+                        drop(fut);
+                    }
+                    conn.finish_handshake().await.map_err(|e| format!("server handshake: {e}"))?;
+                    let other = Service::call(&mut svc, request("other.example.org")).await.is_ok();
+                    let same = Service::call(&mut svc, request("EXAMPLE.com:443")).await.is_ok();
+                    let plain = Service::call(&mut svc, request("example.com")).await.is_ok();
+                    Ok::<_, String>((conn, other, same, plain))
+                };
+                let joined = tokio::time::timeout(std::time::Duration::from_secs(30), async { tokio::join!(client_side, server_side) }).await.map_err(|_| "connection-level run hung".to_string())?;
+                let (_stream, (_conn, other, same, plain)) = (joined.0?, joined.1?);
+                let mut v = vec![];
+                if other {
+                    v.push(("connection-level mismatching-host-forwarded".to_string(), "a request for other.example.org on a connection whose server name is example.com was forwarded".to_string()));
+                }
+                if !same || !plain {
+                    v.push(("connection-level matching-host-rejected".to_string(), format!("a request naming the server name was rejected (EXAMPLE.com:443 -> {same}, example.com -> {plain})")));
+                }
+                for (host, tls) in seen.lock().unwrap().iter() {
+                    match tls {
+                        Some(t) if t.validated_server_name && t.server_name.as_deref() == Some("example.com") => {}
+                        other => v.push(("connection-level forwarded-without-validated-mark".to_string(), format!("the application saw the request for {host} with TLS info {other:?}"))),
+                    }
+                }
+                Ok(v)
+            });
+            match out {
+                Ok(v) => {
+                    for (sig, what) in v {
+                        viols.push((sig, format!("{what}; {early} earlier request(s) on the connection were created, polled {polls} time(s) and dropped before the handshake completed")));
+                    }
+                }
+                Err(e) => return Err(e),
+            }
+        }
+    }
+    Ok((runs, viols))
+}
+
 fn expected_forward(version: http::Version, host: Option<&str>, uri: &str, sni: Option<&str>) -> Option<bool> {
     let parsed: http::Uri = uri.parse().ok()?;
     let authority = parsed.authority().map(|a| a.as_str().to_string());
@@ -297,6 +389,22 @@ pub fn run(args: &Args) -> i32 {
     }
     evaluations += pairs;
     run.cov("request_pairs_through_one_instance", pairs);
+    // Connection level: the real TLS acceptor, handshake, info layer and SNI service
+    match connection_level_runs() {
+        Ok((n, v)) => {
+            run.cov("connection_level_runs_with_real_handshake", n);
+            evaluations += n;
+            for (sig, what) in v {
+                run.violation(sig, what, json!({"engine":"c20-pair"}));
+            }
+        }
+        Err(e) => {
+            let _ = std::panic::take_hook();
+            println!("MACHINERY-ERROR connection-level stage: {e}");
+            let _ = run.finish();
+            return 2;
+        }
+    }
     // Requests that did not arrive over TLS are outside the statement; they must merely not panic.
     for &version in &versions {
         for &host in &hosts {
